@@ -173,6 +173,18 @@ func c18Run(c *fw.Case) {
 		}
 		i := gen.Pick(c.R, []int{0, len(a) - 1, c.Intn(len(a))})
 		call, want = fmt.Sprintf("ELEMENTAT(%s, %d)", arg(a), i), a[i]
+		switch c.Intn(4) {
+		case 0:
+			// the index as an integer: what CHANGETYPE(x, 'integer') yields
+			call = fmt.Sprintf("ELEMENTAT(%s, CHANGETYPE('%d', 'integer'))", arg(a), i)
+			c.Feature("elementat.integer-index")
+		case 1:
+			// ... or an index column holding a natively typed Go integer
+			row["ix"] = gen.Pick(c.R, []any{int(i), int64(i), int32(i), uint8(i), uint(i), float32(i)})
+			call = fmt.Sprintf("ELEMENTAT(%s, ix)", arg(a))
+			rawDoc = true
+			c.Feature("elementat.integer-index")
+		}
 	case "elementat.oob":
 		a := c18Array(c, 1)
 		for len(a) == 0 {
